@@ -7,6 +7,8 @@ MStr1 == MStr(1)
 MPalette == {<<cPLAIN>>, <<cLT, cAMP>>, <<cQUOT, cPLUS, cAPOS>>, <<cSP>>, <<cPLAIN, cSP, cPLAIN>>}
 HtmlKinds == {"page", "textboxh", "textboxv", "textline", "char", "anno", "figure", "line", "image"}
 HocrKinds == {"page", "textboxh", "textline", "char", "anno", "figure"}
+LineKinds == {"page", "textboxh", "textline", "char", "anno"}
+MLines == {<<cPLAIN>>, <<cPLAIN, cSP, cLT>>, <<cSP>>}
 FlatKinds == {"page", "figure", "char", "anno"}
 BothConvs == {"html", "hocr"}
 OnlyHtml == {"html"}
